@@ -5,7 +5,7 @@ import emit as E
 PROP = 'C18'
 COQ_IMPORTS = ['PT.Model.Bipartite']
 FORM = 'E (exact): model evaluated by vm_compute on the same edge lists; matching and both cover lists compared exactly'
-RULE = ('quick: every edge set of every partition up to 3x3 (edge list in seeded random order, sometimes with duplicates) '
+RULE = ('quick: every edge set of every partition up to 3x3 and of the rectangular partitions 3x4, 4x3, 2x5, 5x2 (edge list in seeded random order, sometimes with duplicates) '
         'plus seeded samples of 4x4, 5x5 and larger graphs of all densities, long augmenting-path families; '
         'thorough: additionally every 4x4 edge set and more/larger samples. '
         'non-trivial = at least two edges sharing a vertex (matching < number of edges possible); distinct by (nu, nv, edge list)')
@@ -88,9 +88,16 @@ def cases(rng, tier):
             for b in range(1, 4):
                 for es in _all_edge_sets(a, b):
                     add(a, b, _shuffle_dup(rng, es))
+    # rectangular partitions exhaustively as well (index arithmetic that confuses num_u and num_v shows only for num_u != num_v)
+    if tier in ('quick', 'thorough'):
+        for a, b in ((3, 4), (4, 3), (2, 5), (5, 2)):
+            for es in _all_edge_sets(a, b):
+                add(a, b, _shuffle_dup(rng, es))
     if tier == 'thorough':
         for es in _all_edge_sets(4, 4):
             add(4, 4, _shuffle_dup(rng, es))
+        for es in _all_edge_sets(3, 5):
+            add(3, 5, _shuffle_dup(rng, es))
     n_s = {'quick': 600, 'thorough': 6000, 'search': 1500}[tier]
     for _ in range(n_s):
         a, b = rng.choice([(4, 4), (4, 4), (5, 5), (3, 5), (5, 2), (4, 6), (6, 6), (2, 7)])
